@@ -3,6 +3,7 @@ package main
 // Models of standard-library functions (the trusted stdlib contracts of DESIGN section 2.2).
 
 import (
+	"math"
 	"fmt"
 	"go/token"
 	"go/types"
@@ -109,6 +110,19 @@ func (fr *Frame) stdModel(name string, fn *ssa.Function, args []Val, pos token.P
 		}
 		return one(UFApp("u"+name, SFP, T(0)))
 	case "math.Remainder":
+		if c.fp && c.contract != nil && c.contract.Flags["remwrap"] != "" && T(1) == fpLit(2*math.Pi) {
+			// flag remwrap: for |x| < 3*pi the IEEE remainder by 2*pi is x, x-2*pi or x+2*pi, each computed exactly
+			// (stand-alone lemma /verif/lemmas/remainder_wrap.smt2); the range is an obligation at every use.
+			// fp.rem itself costs the solvers minutes per occurrence.
+			x := T(0)
+			pi := fpLit(math.Pi)
+			three := App("fp.mul", SFP, RNE, fpLit(3), pi)
+			c.oblige(fr, "remwrap-range", "math.Remainder argument within (-3pi, 3pi)", App("fp.lt", SBool, App("fp.abs", SFP, x), three), pos)
+			two := fpLit(2 * math.Pi)
+			w := Ite(App("fp.leq", SBool, App("fp.abs", SFP, x), pi), x,
+				Ite(App("fp.gt", SBool, x, pi), App("fp.sub", SFP, RNE, x, two), App("fp.add", SFP, RNE, x, two)))
+			return one(w)
+		}
 		if c.fp {
 			return one(App("fp.rem", SFP, T(0), T(1)))
 		}
